@@ -112,7 +112,11 @@ fn log_te(out: &Result<Out, ()>) {
 fn cmd_run(inp: &str, outp: &str) {
     sched::init();
     orx_parallel::verif::set_hooks(Some(Arc::new(sched::H)));
-    std::panic::set_hook(Box::new(|_| {}));
+    if std::env::var("ORXH_PANICMSG").is_ok() {
+        std::panic::set_hook(Box::new(|i| eprintln!("panic: {}", i)));
+    } else {
+        std::panic::set_hook(Box::new(|_| {}));
+    }
     let text = std::fs::read_to_string(inp).expect("read jobs");
     let mut out = std::fs::File::create(outp).expect("create trace");
     let mut n = 0u64;
